@@ -110,8 +110,8 @@ def gen_step(rnd, pool, domain):
     if op == "insert":
         lab = rnd.choice(["n", " m ", "", "q-r"])
         e = [a, b, lab] if k == "I" else [a, lab]
-        if k == "I" and not a < b:
-            e = [a, a + d, lab]
+        if k == "I" and not a < b and rnd.random() < 0.6:
+            e = [a, a + d, lab]          # otherwise: a zero-length or reversed interval (must be rejected)
         return {"op": p + "insert", "tier": t, "entry": e, "mode": rnd.choice(["error", "replace", "merge"]), "report": "silence"}
     if op == "delete":
         if t["es"] and rnd.random() < 0.8:
@@ -171,6 +171,11 @@ def corpus():
     yield {"op": "idelete", "tier": it, "entry": [1.0, 2.0, "nope"], "grid": True}                                    # known finding
     yield {"op": "mkitier", "name": "N", "es": [[1.0, 3.0, "a"], [2.0, 4.0, "b"]], "lo": None, "hi": None, "grid": True}
     yield {"op": "mkitier", "name": "N", "es": [], "lo": None, "hi": None, "grid": True}
+    yield {"op": "pdelete", "tier": pt, "entry": [1.0, "nope"], "grid": True}                                        # known finding
+    # zero-length / reversed intervals must be rejected by insertEntry, not stored
+    for mode in ("error", "replace", "merge"):
+        yield {"op": "iinsert", "tier": it, "entry": [2.5, 2.5, "z"], "mode": mode, "report": "silence", "grid": True}
+        yield {"op": "iinsert", "tier": it, "entry": [2.75, 2.25, "z"], "mode": mode, "report": "silence", "grid": True}
 
 
 def gen(rnd, tier):
